@@ -1944,3 +1944,48 @@ contract(F, 'Table.data', tier='A', props=['C05'],
             'UnknownIDError': [AX, "id not in %s" % IDX],
             'IndexError': ["self._data.shape[0] == 0 or self._data.shape[1] == 0"]},
     modifies=['self._data', 'self._data.*'])
+
+
+# ---- Table.sort with its default (natural) order: a second contract of the same function ----------------------------
+ASSUMED['natsort'] = ('biom.util.natsort(seq) returns a new list that is a permutation of seq (its body - list.sort with a '
+                      'key function - is not verified; nothing is assumed about *which* permutation)')
+
+
+def _tw_builtin_natsort(self, eng, st, name, args, kwargs, node, starv=None, dstar=None):
+    if name in ('biom.util.natsort', 'natsort'):
+        self.used.add('natsort')
+        out = []
+        for r in self.sorted_(eng, st, args[0], node):
+            out.append(Result(self.record(r.st, 'natsort', args, r.val), r.val) if r.exc is None else r)
+        return out
+    return _prev_builtin_natsort(self, eng, st, name, args, kwargs, node, starv, dstar)
+
+
+_prev_builtin_natsort = TableWorld.call_builtin
+TableWorld.call_builtin = _tw_builtin_natsort
+
+_NS = "kret('natsort')"
+contract(F, 'Table.sort', variant='natural-order', tier='A', props=['C06'],
+    types={'self': 'Obj:Table', 'sort_f': 'Default', 'axis': 'Str'},
+    requires=WF_T + ["is_index_of(self._sample_index, self._sample_ids) and is_index_of(self._obs_index, self._observation_ids)",
+                     "isnone(self._sample_metadata) or len(self._sample_metadata) == len(self._sample_ids)",
+                     "isnone(self._observation_metadata) or len(self._observation_metadata) == len(self._observation_ids)"],
+    returns='Obj:Table',
+    ensures=["result is not self and result._data is not self._data and samecells(self._data, old(self._data.cell))"],
+    internal=[
+        # the default order is asked of natsort, once, for the ids of the axis - and what it answers is the order of the
+        # result, whatever the ids look like
+        "kcount('natsort') == 1",
+        "implies(axis == 'sample', karg('natsort', 0) is self._sample_ids and same_seq(result._sample_ids, %s) "
+        "        and same_seq(result._observation_ids, self._observation_ids))" % _NS,
+        "implies(axis == 'observation', karg('natsort', 0) is self._observation_ids and same_seq(result._observation_ids, %s) "
+        "        and same_seq(result._sample_ids, self._sample_ids))" % _NS,
+        "implies(axis == 'sample', result._data.shape[0] == self._data.shape[0] and result._data.shape[1] == len(%s) and "
+        "        all(cell(result._data, i, k) == cell(self._data, i, self._sample_index[%s[k]]) "
+        "            for i in range(self._data.shape[0]) for k in range(len(%s))))" % (_NS, _NS, _NS),
+        "implies(axis == 'observation', result._data.shape[1] == self._data.shape[1] and result._data.shape[0] == len(%s) and "
+        "        all(cell(result._data, k, j) == cell(self._data, self._obs_index[%s[k]], j) "
+        "            for k in range(len(%s)) for j in range(self._data.shape[1])))" % (_NS, _NS, _NS),
+    ],
+    raises={'UnknownAxisError': ["not (%s)" % AX]},
+    modifies=[])
